@@ -167,8 +167,18 @@ fn gen_plan(rng: &mut Rng, cfg: &Cfg, calls: u32, total_bytes: u64, reader: bool
 pub fn generate(rng: &mut Rng, tier: &str, _idx: u64) -> Scenario {
     let thorough = tier == "thorough";
     // --- swarm configuration ---
-    let span = match rng.below(if thorough { 4000 } else { 40_000 }) {
-        0 => 260_000,
+    // swarm, sizes: one history in 20 000 (2 000 in the thorough tier) has a huge year window; every other one of
+    // those spans the WHOLE domain of dates, NaiveDate::MIN's year to NaiveDate::MAX's (a 25 MB calendar)
+    let mut whole_domain = false;
+    let span = match rng.below(if thorough { 2000 } else { 20_000 }) {
+        0 => {
+            whole_domain = rng.chance(1, 2);
+            if whole_domain {
+                max_year() - min_year()
+            } else {
+                260_000
+            }
+        }
         1..=3 => 5_000,
         4..=13 => {
             // sizes around powers of two (ring-buffer capacities, bit tricks)
@@ -191,7 +201,7 @@ pub fn generate(rng: &mut Rng, tier: &str, _idx: u64) -> Scenario {
         _ => 1990 + rng.range(0, 60) as i32,
     }
     .clamp(min_year(), max_year() - span);
-    let faults = !rng.chance(1, 4);
+    let faults = !rng.chance(1, 4) && !whole_domain;
     let rate = |rng: &mut Rng| -> u64 { *rng.pick(&[0, 0, 4, 16, 32]) };
     let cfg = Cfg {
         base_year,
@@ -227,7 +237,20 @@ pub fn generate(rng: &mut Rng, tier: &str, _idx: u64) -> Scenario {
     let mut snaps = 0u32;
     // weights: insert, contains, first_after, count, iter, year, clone, rebuild, snapshot, cmpsnap, roundtrip, concat
     let weights: [u32; 12] = if huge { [30, 10, 14, 2, 1, 4, 1, 0, 1, 1, 2, 1] } else { [30, 10, 16, 3, 4, 6, 2, 3, 4, 6, 12, 7] };
-    for _ in 0..cfg.len {
+    if whole_domain {
+        // both ends of the domain, in either order, then the ordinary history
+        let mut ends = [D(min_year(), 1, 1 + rng.below(28) as u32), D(max_year(), 12, 31 - rng.below(3) as u32)];
+        if rng.chance(1, 2) {
+            ends.swap(0, 1);
+        }
+        for d in ends {
+            known.push(d);
+            lo = lo.min(d.0);
+            hi = hi.max(d.0);
+            ops.push(Op::Insert(d));
+        }
+    }
+    for _ in 0..cfg.len.min(if whole_domain { 12 } else { usize::MAX }) {
         let years = if hi >= lo { hi - lo + 1 } else { 0 };
         let bytes = 12 + 48 * years as u64;
         let op = match rng.weighted(&weights) {
@@ -290,6 +313,9 @@ pub fn generate(rng: &mut Rng, tier: &str, _idx: u64) -> Scenario {
     }
     // closing checks: full agreement, then the crash-point sweep over the final stream
     ops.push(Op::Iter);
+    if whole_domain {
+        ops.push(Op::RoundTrip { w: Plan::default(), r: Plan::default(), tail: 3 });
+    }
     if rng.chance(3, 4) {
         let years = if hi >= lo { (hi - lo + 1) as u64 } else { 0 };
         let mut items = vec![Item::Cur];
